@@ -3,6 +3,7 @@
 package gcc
 
 import (
+	"sync"
 	"errors"
 	"fmt"
 	"testing"
@@ -50,14 +51,21 @@ func vfGccNewDriver(sc *vfGccScript, lg *vfGccLog) (*vfGccDriver, error) {
 	if sc.Pacer == "default" {
 		leaky, _ = bwe.pacer.(*LeakyBucketPacer)
 	}
+	var feeding sync.RWMutex // read-held by every WriteRTCP call in progress
 	bwe.OnTargetBitrateChange(func(v int) {
 		// an observer that asks the estimator from inside its callback (the value may already be a newer one)
 		_ = bwe.GetTargetBitrate()
 		_ = bwe.GetStats()
 		lg.cb(v)
+		if sc.CbWait { // ... and that is not done before the feedback calls in progress have returned
+			feeding.Lock()
+			feeding.Unlock() //nolint:staticcheck // waiting is the point
+		}
 	})
 	feed := func(pkts []rtcp.Packet) string {
+		feeding.RLock()
 		err := bwe.WriteRTCP(pkts, nil)
+		feeding.RUnlock()
 		switch {
 		case err == nil:
 			return "ok"
